@@ -1,5 +1,6 @@
 import CifModel.Lemmas.ParserTop
 import CifModel.Lemmas.ParserQuiet
+import CifModel.Lemmas.ParserConsistent
 /-
   Props/C03 — the parser is total and honours the error-callback contract on any input (property C03), as theorems about
   the integrated parser model `Model.Parser.parse` (tied to src/parser.c by the `parse` correspondence family).
@@ -237,6 +238,41 @@ theorem C03_reported (o : Opts) (pol : Policy) (pre : Cif) (units : Str)
       · apply h; simpa using hlog
       · exact h1 h
       · exact h2 h
+
+/-- the consistency of a managed CIF (`Lemmas/ParserStore.OkCif`), spelled out: block codes pairwise distinct after
+    normalisation; in every container, recursively: frame codes pairwise distinct after normalisation, every normalised item
+    name defined once over all loops, at most one scalar loop, and at most one packet in a scalar loop -/
+theorem C03_consistent_iff (o : Opts) (cif : Cif) :
+    OkCif o cif ↔ (cif.map fun c => o.norm c.code).Nodup ∧ ∀ c ∈ cif, OkC o c := by
+  unfold OkCif normCodes
+  rw [OkCs_iff]
+
+theorem C03_consistent_container (o : Opts) (code : Str) (fs : List Container) (ls : List Loop) :
+    OkC o (.mk code fs ls) ↔
+      ((normNames o ls).Nodup ∧ (ls.filter Parser.isScalarLoop).length ≤ 1 ∧
+        ∀ l ∈ ls, Parser.isScalarLoop l = true → l.packets.length ≤ 1) ∧
+      (fs.map fun c => o.norm c.code).Nodup ∧ ∀ c ∈ fs, OkC o c := by
+  rw [OkC_mk, OkCs_iff]
+  rfl
+
+/-- **C03_consistent_after** — every option record, every callback policy, every input, every consistent initial content of the
+    target: after the parse — completed, stopped by a callback answer (also a negative one), or left through one of the
+    parser's own failure exits — the target CIF is consistent. -/
+theorem C03_consistent_after (o : Opts) (pol : Policy) (pre : Cif) (units : Str) (h : OkCif o pre) :
+    OkCif o (parse o pol pre units).cif :=
+  parse_ok o pol pre units h
+
+/-- … in particular when the parse starts with an empty CIF -/
+theorem C03_consistent_after_fresh (o : Opts) (pol : Policy) (units : Str) : OkCif o (parse o pol [] units).cif :=
+  parse_ok o pol [] units ⟨by simp [normCodes], by simp [OkCs]⟩
+
+/-- the invariant is not vacuous: two blocks with the same code are not consistent, nor is a block that defines a name twice -/
+example (o : Opts) : ¬ OkCif o [.mk [97] [] [], .mk [97] [] []] := by
+  simp [OkCif, normCodes, Container.code]
+
+example (o : Opts) : ¬ OkCif o [.mk [97] [] [{ category := none, names := [[95, 120]], packets := [] },
+    { category := some [], names := [[95, 120]], packets := [] }]] := by
+  simp [OkCif, OkCs, OkC, LoopsOk, normNames]
 
 /-- under the all-accepting callback the parse returns CIF_OK or one of the codes the parser returns on its own -/
 theorem C03_accept_all (o : Opts) (pre : Cif) (units : Str) :
